@@ -24,7 +24,7 @@ PATHS = ("law", "block", "block_valid", "stream", "read_dedisp", "dmt", "dmt_val
 
 
 def REQUIRED(tier):
-    return [f"path:{p}" for p in PATHS] + ["regime:negative_delays", "regime:foff>0", "regime:dm<0", "law_checks", "elements_compared", "regime:multi_file_input", "path:block_second_reference", "tie_sweep_dms", "exact_half_sample_ties", "law_after_stream_checks"]
+    return [f"path:{p}" for p in PATHS] + ["regime:negative_delays", "regime:foff>0", "regime:dm<0", "law_checks", "elements_compared", "regime:multi_file_input", "path:block_second_reference", "tie_sweep_dms", "exact_half_sample_ties", "law_after_stream_checks", "file_depth:4", "file_depth:1", "file_depth:8", "regime:input_header_carries_a_dm"]
 
 
 def cases(tier, seed):
@@ -205,7 +205,13 @@ def _paths(case, j, ctx):
     hdr = _hdr(nch, fch1, foff, tsamp, n)
     ref = _ref_choice(rng, hdr)
     dm = _pick_dm(rng, hdr, n, ref)
-    x = rng.integers(0, 200, size=(nch, n)).astype(np.float32)
+    # depth of the file the streamed paths read from: packed depths where the channel count allows a whole number of bytes per sample
+    fbits = [32, 8, 4, 2, 1, 32][(case["seed"] + j) % 6]
+    if (nch * fbits) % 8:
+        fbits = 32
+    ctx.count(f"file_depth:{fbits}")
+    frefdm = 17.25 if (case["seed"] + j) % 4 == 3 else None      # some observations already carry a reference DM in the header
+    x = rng.integers(0, min(200, 1 << fbits), size=(nch, n)).astype(np.float32)
     xf = x.astype(np.float64)
     one = {"kind": "paths", "n": 1, "seed": case["seed"], "only": j}
     ar = np.arange(n)
@@ -282,13 +288,15 @@ def _paths(case, j, ctx):
         cuts = sorted(frng.choice(np.arange(1, n), size=nf - 1, replace=False).tolist())
         dd = os.path.join(ctx.tmp, "c09in")
         os.makedirs(dd, exist_ok=True)
-        pths = sigfile.write_split(dd, x.T, 32, [b - a for a, b in zip([0] + cuts, cuts + [n])], fch1=fch1, foff=foff, tsamp=tsamp)
+        pths = sigfile.write_split(dd, x.T if fbits == 32 else x.T.astype(np.uint8), fbits, [b - a for a, b in zip([0] + cuts, cuts + [n])], fch1=fch1, foff=foff, tsamp=tsamp, **({"refdm": frefdm} if frefdm else {}))
         fil = FilReader(pths, check_contiguity=False)  # MJD start times cannot resolve 10 us sampling; contiguity is not the subject here
         ctx.count("regime:multi_file_input")
     else:
         p = os.path.join(ctx.tmp, "c09.fil")
-        sigfile.write_fil(p, x.T, 32, fch1=fch1, foff=foff, tsamp=tsamp)
+        sigfile.write_fil(p, x.T if fbits == 32 else x.T.astype(np.uint8), fbits, fch1=fch1, foff=foff, tsamp=tsamp, **({"refdm": frefdm} if frefdm else {}))
         fil = FilReader(p)
+    if frefdm:
+        ctx.count("regime:input_header_carries_a_dm")
     if np.max(np.abs(d1)) < n:
         ctx.evaluated(); ctx.count("path:stream")
         try:
